@@ -346,7 +346,7 @@ func (e *exprCtx) expr(v ssa.Value) string {
 					for i, f := range fn.FreeVars {
 						if f == fv && i < len(mc.Bindings) {
 							if a, ok := mc.Bindings[i].(*ssa.Alloc); ok {
-								if st := uniqueStore(a); st != nil && !e.seen[a] {
+								if st := uniqueStore(a); st != nil && !e.seen[a] && !writtenByClosures(a) {
 									e.seen[a] = true
 									s := e.expr(st.Val)
 									delete(e.seen, a)
@@ -2205,7 +2205,7 @@ func (c *Ctx) valueCases(v ssa.Value, blk *ssa.BasicBlock) []valueCase {
 					if side >= 0 && oc[k] >= 0 && oc[k] != side {
 						continue
 					}
-					walk(e, edgeGuards(c, d.Preds[k], d), depth+1)
+					walk(e, uniq(append(append([]string{}, gs...), edgeGuards(c, d.Preds[k], d)...)), depth+1)
 				}
 			}
 			return
@@ -2257,4 +2257,37 @@ func allocNeverWritten(a *ssa.Alloc) bool {
 		return true
 	}
 	return ok(a, 0)
+}
+
+// writtenByClosures: some function literal that captures the cell assigns to it (so the parent's single store is not
+// the only value the cell can hold).
+func writtenByClosures(a *ssa.Alloc) bool {
+	refs := a.Referrers()
+	if refs == nil {
+		return false
+	}
+	for _, r := range *refs {
+		mc, ok := r.(*ssa.MakeClosure)
+		if !ok {
+			continue
+		}
+		fn, _ := mc.Fn.(*ssa.Function)
+		if fn == nil {
+			continue
+		}
+		for i, b := range mc.Bindings {
+			if b != ssa.Value(a) || i >= len(fn.FreeVars) {
+				continue
+			}
+			fv := fn.FreeVars[i]
+			if fr := fv.Referrers(); fr != nil {
+				for _, u := range *fr {
+					if st, ok := u.(*ssa.Store); ok && st.Addr == ssa.Value(fv) {
+						return true
+					}
+				}
+			}
+		}
+	}
+	return false
 }
